@@ -345,6 +345,11 @@ func genCommandLine(g *G) Step {
 	case 18:
 		return goit(g.Pick([]string{"--version", "-v", "version", "--help", "help", "-t"}, "top"))
 	case 19:
+		if g.Bool("flagsWithoutArgs") {
+			// flags given, required arguments missing
+			return inv(g.PickArgs([][]string{{"cat-file", "-t"}, {"cat-file", "-p"}, {"cat-file", "--type"}, {"restore", "--staged"}, {"reset", "--hard"}, {"reset", "--soft"}, {"reset", "--mixed"},
+				{"config", "--global"}, {"config", "--global", "user.name"}, {"branch", "-d"}, {"branch", "-r"}, {"switch", "-c"}, {"log", "-n"}, {"commit", "-m"}, {"update-ref", "refs/heads/main"}}, "flagform")...)
+		}
 		// unknown flags and sub-commands are refused by the argument parser
 		sub := g.Pick([]string{"add", "commit", "rm", "branch", "switch", "restore", "reset", "status", "log", "reflog", "config", "cat-file", "ls-files", "hash-object", "rev-parse", "update-ref", "write-tree", "init"}, "subc")
 		return inv(sub, "--no-such-flag")
